@@ -121,7 +121,7 @@ func (rs *RecordSet) readFromVersion1(d *decoder) error {
 				})
 			}
 
-			if baseOffset != 0 {
+			if baseOffset != 0 && len(r.records) != 0 {
 				// https://kafka.apache.org/documentation/#messageset
 				//
 				// In version 1, to avoid server side re-compression, only the
@@ -129,7 +129,12 @@ func (rs *RecordSet) readFromVersion1(d *decoder) error {
 				// will have relative offsets. The absolute offset can be computed
 				// using the offset from the outer message, which corresponds to the
 				// offset assigned to the last inner message.
-				lastRelativeOffset := int64(len(r.records)) - 1
+				//
+				// The relative offset of the last inner message is read from
+				// the message itself rather than derived from the number of
+				// messages: after log compaction the relative offsets of the
+				// retained messages are not contiguous.
+				lastRelativeOffset := r.records[len(r.records)-1].Offset
 
 				for i := range r.records {
 					r.records[i].Offset = baseOffset - (lastRelativeOffset - r.records[i].Offset)
